@@ -722,6 +722,25 @@ def opt_unwrap_or(it, args, n, f):
     raise Unrecognised("unwrap_or of %r" % (o,))
 
 
+@model("std::option::Option::<T>::unwrap_or_default", doc="payload, or the default of the payload type (empty Vec / None / 0 / false)")
+def opt_unwrap_or_default(it, args, n, f):
+    o = it.val_force(args[0])
+    if isinstance(o, StructV) and o.adt == OPTION:
+        if o.variant == "Some":
+            return it.force(o.fields["0"])
+        ts = it.ty(n["ty"])["s"]
+        if ts.startswith(("std::vec::Vec<", "alloc::vec::Vec<", "Vec<")):
+            return VecV(VecObj(it.fresh("vec"), [], None))
+        if ts.startswith(("std::option::Option<", "core::option::Option<", "Option<")):
+            return none()
+        if ts in ("usize", "u8", "u16", "u32", "u64", "u128", "isize", "i32", "i64"):
+            return IntV(0)
+        if ts == "bool":
+            return BoolV(False)
+        raise Unrecognised("unwrap_or_default of type %s" % ts)
+    raise Unrecognised("unwrap_or_default of %r" % (o,))
+
+
 @model("std::option::Option::<T>::and_then", doc="None, or the function applied to the payload")
 def opt_and_then(it, args, n, f):
     o = it.val_force(args[0])
